@@ -189,6 +189,8 @@ def hand_abstract_schema():
     DIFFERENT kinds of type resolver, non-null items and fields."""
     types = OrderedDict()
     types["Odd"] = {"kind": "SCALAR"}
+    types["Shade"] = {"kind": "ENUM", "values": ["LIGHT", "DARK"]}
+    types["Tone"] = {"kind": "ENUM", "values": ["WARM", "COLD", "DARK"]}
     types["Info"] = {"kind": "OBJECT", "interfaces": [], "fields": [
         {"name": "x", "type": N("Int"), "args": []}, {"name": "y", "type": N("Int"), "args": []},
         {"name": "deep", "type": N("Info"), "args": []}, {"name": "must", "type": NN(N("Int")), "args": []},
@@ -207,6 +209,8 @@ def hand_abstract_schema():
         {"name": "ab", "type": L(NN(N("AB"))), "args": []}, {"name": "sh", "type": L(N("Named")), "args": []},
         {"name": "plain", "type": N("Info"), "args": []}, {"name": "strictItems", "type": L(NN(N("Named"))), "args": []},
         {"name": "oddRoot", "type": NN(N("Odd")), "args": []},
+        {"name": "shade", "type": N("Shade"), "args": []}, {"name": "tone", "type": N("Tone"), "args": []},
+        {"name": "shades", "type": L(NN(N("Shade"))), "args": []},
         # nullable lists directly inside lists, a non-null further down: a failing item nulls the INNER list only
         {"name": "grid", "type": L(L(NN(N("Int")))), "args": []},
         {"name": "cube", "type": L(L(L(NN(N("Int"))))), "args": []},
@@ -264,6 +268,10 @@ HAND_PARENT_SHAPES = [
     ("{ strictItems { name ... on A { a } } ab { ... on A { a name } ... on B { b name } } }",
      [(["strictItems"], "attr_raises"), (["ab"], "rec_parent")]),
     ("{ infoGrid { x y must } namedGrid { name } }", [(["infoGrid"], "rec_parent"), (["namedGrid"], "attr_raises")]),
+    # a value of ANOTHER enum at an enum position (sibling enum, introspection enum): not a value of this one
+    ("{ shade tone shades }", [(["shade"], "foreign_enum")]),
+    ("{ shade tone shades }", [(["tone"], "foreign_enum"), (["shades"], "foreign_enum")]),
+    ("{ a: shade b: tone }", [(["a"], "foreign_enum"), (["b"], "foreign_enum")]),
 ]
 
 
@@ -641,7 +649,11 @@ class Oracle:
             return self.scalar(rng, name)
         if kind == "ENUM":
             if rng.random() < self.adv:
-                return rng.choice(["NOPE", 1, True, ["RED"], d["values"][0].lower()])
+                # values of OTHER enums (of this schema and of the introspection schema) are not values of this one
+                foreign = [v for o, od in self.s["types"].items() if od["kind"] == "ENUM" and o != name
+                           for v in od["values"] if v not in d["values"]]
+                foreign += [v for v in ("OBJECT", "SCALAR", "NON_NULL", "QUERY", "FIELD_DEFINITION") if v not in d["values"]]
+                return rng.choice(["NOPE", 1, True, ["RED"], d["values"][0].lower()] + foreign[:6])
             return rng.choice(d["values"])
         if kind == "OBJECT":
             return self.object(rng, name, depth)
@@ -747,6 +759,21 @@ class Oracle:
                 return ("ret", 7)
             if kind == "bad_typename":
                 return ("ret", {"_typename": "Nope", "__tr": "Nope"})
+            if kind == "foreign_enum":
+                # a value of ANOTHER enum: a sibling enum of this schema when the site is an enum position, else (and at the
+                # hand sites `tone` / `b`) a value of the introspection enum __TypeKind
+                own = self.s["types"].get(named_of(ftype), {})
+                sib = [v for o, od in self.s["types"].items() if od["kind"] == "ENUM" and o != named_of(ftype)
+                       for v in od["values"] if v not in own.get("values", [])]
+                v = sib[0] if sib and own.get("kind") == "ENUM" and str(path[-1]) not in ("tone", "b") else "OBJECT"
+                t = ftype
+                depth = 0
+                while t[0] in ("nonnull", "list"):
+                    depth += t[0] == "list"
+                    t = t[1]
+                for _ in range(depth):
+                    v = [v]
+                return ("ret", v)
             if kind in ("rec_parent", "attr_raises"):
                 return ("ret", reshape_objects(Oracle(self.s, self.seed, 0.0, 0.0).value(rng, ftype, 0), kind, msg))
             if kind == "coerce_null":
